@@ -656,7 +656,12 @@ pub fn panic_signature(prop: &str, msg: &str) -> Option<String> {
     {
         return None;
     }
+    // the part after " @" is the innermost function (added by the panic hook);
+    // signatures of this default classification use the message only
     let short: String = msg
+        .split(" @")
+        .next()
+        .unwrap_or(msg)
         .chars()
         .take(70)
         .map(|c| if c.is_ascii_digit() { '#' } else { c })
